@@ -164,6 +164,7 @@ func VerifCtxShape(ctx *Ctx) []byte {
 	i("buf", len(ctx.buf))
 	i("bufS", len(ctx.bufS))
 	b("bufX", ctx.bufX != nil)
+	b("bufM", ctx.bufM != nil)
 	i("bufA", len(ctx.bufA))
 	i("bufLC", len(ctx.bufLC))
 	i("bufMO", ctx.bufMO.Len())
@@ -228,6 +229,6 @@ func VerifCtxShape(ctx *Ctx) []byte {
 }
 
 var verifKnownCtxFields = map[string]bool{"vars": true, "ln": true, "chQB": true, "bnd": true, "noesc": true, "buf": true, "bufS": true, "bufI": true,
-	"bufX": true, "bufA": true, "bufLC": true, "bufMO": true, "bufCB": true, "rl": true, "dfr": true, "ipv": true, "ipvl": true, "brkD": true, "w": true,
+	"bufX": true, "bufM": true, "bufA": true, "bufLC": true, "bufMO": true, "bufCB": true, "rl": true, "dfr": true, "ipv": true, "ipvl": true, "brkD": true, "w": true,
 	"wl": true, "incD": true, "kv": true, "kvl": true, "BufAcc": true, "Buf": true, "Buf1": true, "Buf2": true, "BufB": true, "BufI": true, "BufU": true,
 	"BufF": true, "BufT": true, "BufX": true, "Err": true}
